@@ -3,7 +3,7 @@
 use crate::framework::{Ctx, Spec, Tier};
 use crate::gen;
 use crate::model::*;
-use crate::ops::{CacheMode, Fail, Op};
+use crate::ops::{self, CacheMode, Fail, Op};
 use crate::refimpl;
 use crate::repl::{self, Pair, Plan, RoundResult};
 use crate::rng::Rng;
@@ -242,7 +242,7 @@ fn exhaustive_chunk(ctx: &mut Ctx, id: u64) {
 }
 
 fn directed(ctx: &mut Ctx, di: u64, r: &mut Rng) {
-    let mut sess = match Session::new(300 + di, [CacheMode::None, CacheMode::Default, CacheMode::Tiny][((di + ctx.seed) % 3) as usize]) {
+    let mut sess = match Session::new(300 + di, ops::CACHE_MODES[((di + ctx.seed) % 4) as usize]) {
         Ok(s) => s,
         Err(f) => {
             ctx.violate(f.sig, f.detail, json!({"kind":"case"}));
@@ -422,9 +422,9 @@ fn run_case(ctx: &mut Ctx, id: u64) {
         directed(ctx, id - ne, &mut r);
         return;
     }
-    // what the replica accepts must not depend on its node cache: a third of the sessions each
-    // run with the cache off, default and tiny (writer and replica alike)
-    let cache = [CacheMode::None, CacheMode::Default, CacheMode::Tiny][(id % 3) as usize];
+    // what the replica accepts must not depend on its node cache: a quarter of the sessions each
+    // run with the cache off, default, tiny and volatile (writer and replica alike)
+    let cache = ops::CACHE_MODES[(id % 4) as usize];
     let (sess, res) = random_session(ctx, &mut r, cache);
     ctx.count("random_sessions");
     ctx.count(&format!("session_cache:{cache:?}"));
